@@ -172,7 +172,7 @@ def judge(v, traces, scs, labels=None):
         f.write('SPECIFICATION Spec\n')
     r = vlib.run_tlc('ConcilMon', cfg, workers=8, env={'TRACE_FILE': path}, timeout=2400, heap='8g')
     if not r.ok:
-        raise MachineryFailure(f'ConcilMon: {r.error_text[:3000]}')
+        raise MachineryFailure(f'ConcilMon: rc={r.rc} timed_out={r.timed_out} {r.error_text[:3000] or r.stdout[-1500:]}')
     done = {int(json.loads(l)[2:]) for l in r.stdout.splitlines() if l.startswith('"D ')}
     if done != {t['id'] for t in traces}:
         raise MachineryFailure(f'ConcilMon: {len(done)} traces completed out of {len(traces)}')
